@@ -87,7 +87,26 @@ fn run_once(contents: &FileContents, cycles: u32, mem: &[(u64, u8)]) -> (String,
     let result = catch_unwind(AssertUnwindSafe(|| {
         match parse_y86_hcl(contents) {
             Err(e) => {
-                *actions_out.borrow_mut() = loops_of(&e, contents);
+                // the rendered message must name, in quotes, every wire the diagnostic is about (all kinds but the one that
+                // lists the inputs of a component around a '/')
+                let mut extra = loops_of(&e, contents);
+                {
+                    let mut buf: Vec<u8> = Vec::new();
+                    let _ = e.format_for_contents(&mut buf, contents);
+                    let text = String::from_utf8_lossy(&buf).into_owned();
+                    let mut missing: Option<(String, String)> = None;
+                    for d in hk::error_summary(&e) {
+                        if d.kind == "PartialFixedInput" || d.kind == "WireLoop" || d.kind == "InternalParserErrorNear" { continue; }
+                        for n in &d.names {
+                            if !text.contains(&format!("'{}'", n)) && missing.is_none() { missing = Some((d.kind.to_string(), n.clone())); }
+                        }
+                    }
+                    match missing {
+                        None => extra.push_str("(msgnames 1)"),
+                        Some((k, n)) => write!(extra, "(msgnames 0 {} {})", k, crate::streams::sexp_escape(&n)).unwrap(),
+                    }
+                }
+                *actions_out.borrow_mut() = extra;
                 (format!("rej {}", diag_string(&hk::error_summary(&e))), false)
             }
             Ok(program) => {
